@@ -8,6 +8,21 @@ def hook_commits():
     return [l.split()[0] for l in out.splitlines() if l.split(" ", 1)[1].startswith("verif hook")][::-1]
 
 CHECKS = {
+ "C07": dict(
+  category="exploration", design_ref="DESIGN.md 4/C07",
+  technique="exhaustive subset enumeration (2^n) against a logging scripted HTTP server on the real HttpReader",
+  text="Every subset of the descriptors of three archive layouts (contiguous, with gaps, descriptor order != file order; n=7 quick, 10 thorough) is requested through the real HttpReader::read_chunks exactly as Archive::chunk_stream builds the list, against a loopback server logging Range headers (with and without keep-alive); oracle: the logged Range sequence equals the maximal runs of adjacent missing chunks in order with inclusive bounds, and the delivered bytes are exact. C17's HTTP leg repeats the check on independently encoded non-contiguous archives through Archive::chunk_stream.",
+  note="No transfer failures (C08 covers those). Real loopback TCP."),
+ "C08": dict(
+  category="fault_enumeration", design_ref="DESIGN.md 4/C08",
+  technique="deviation-bounded stateless DFS over reader answer scripts (local) and exhaustive fault-sequence enumeration against a scripted HTTP server with a reference model of the retry loop",
+  text="Local: IoReader over a scripted file, all lists of <=2-3 ranges over a small offset/size grid (adjacent, gapped, overlapping, unordered, past EOF), read_at and read_chunks, every answer script with <=2 (quick) / 3 (thorough) deviations from 'full read' (Short(k) for every k, Pending at every poll of read and seek completion), complete tree for single ranges. HTTP: 8 range lists x every single/double split of the first body x every sequence of <=2/3 faults from {connection refused, cut after k bytes for every k incl. 0 and len} x retry budgets 0..3 (+ body ending early, faults on a later run); oracle: a reference model of the resuming retry loop predicts the exact items, the exact Range of every (re)request and whether an error must be returned.",
+  note="A4 (fragmentation scripted on the server side; transport may coalesce). Zero-length ranges are outside C08 (judged under C15)."),
+ "C17": dict(
+  category="exploration", design_ref="DESIGN.md 4/C17",
+  technique="exhaustive enumeration of layout recipes through an independent encoder; real reader locally and over HTTP",
+  text="An independent encoder (no prost, no bitar) produces, for sources of <=3/4 words incl. the empty source and duplicates, every combination of magic {current, legacy} x slack {0,1,7,100} x all permutations of stored chunks x gap patterns x unknown fields in every message x all raw/compressed assignments x hash length {4,5,64} x packed/unpacked rebuild order, per chunker/compression universe; each archive is opened by the real reader (all accessors == encoder inputs) and cloned locally, with a seed (recorded chunker parameters in use) and over HTTP (requests == maximal runs). Quick thins the product 1-in-5 deterministically keeping every value of every dimension; thorough takes the full product.",
+  note="Trusted: the independent encoder as the definition of 'conforming' (cross-validated against bitar bit-for-bit on bitar-written archives)."),
  "C01": dict(
   category="model_checking", design_ref="DESIGN.md 4/C01",
   technique="deviation-bounded stateless DFS over blocking-pool schedules of the real compress_cmd/create_archive/clone_cmd (gate in a vendored tokio) + exhaustive small-alphabet input x configuration sweep",
